@@ -12,19 +12,29 @@ no edge sweep, no ancestry segment lists - nothing shared with tsk_ibd_finder_*)
   the pairs whose nodes lie in different sets.
 
 EITHER zones
- * time[MRCA] == max_time: the docstring says "more recent than", the code keeps them.  max_time is
-   always drawn strictly between distinct node times (or beyond all of them) in gated calls; a boundary
-   workload only records which behaviour was seen (feature boundary:*), it never raises a violation.
+ * time[MRCA] == max_time: the docstring says "more recent than", the code keeps them.  Both candidates
+   (strict and inclusive) are computed for every call; where they differ (max_time exactly on the time of an
+   MRCA) the result must equal ONE of them, the same one under all four store choices (feature boundary:*
+   records which); everywhere else (between distinct node times, next double above / below a node time, 0,
+   inf, DBL_MAX) the two coincide and the call is gated at full strength.
  * Adjacent edge rows with equal parent and child ("unsquashed"): "the same genealogical path" can be
    read per link (node path) or per edge row (TableCollection.ibd_segments documents that such IBD
    intervals "will also be split").  Both readings are computed (the per-row signature also carries the
    edge row ids) and a result is accepted when it equals either one, consistently over the four
    store_pairs/store_segments variants of one call.
  * Order of pairs and of segments within a pair is arbitrary (documented) - compared as sorted lists.
- * The exception class of refusals (duplicates, within+between, negative id, summaries not stored).
- * ids >= num_nodes are never generated (known out-of-bounds defect D5, owned by C09).
+ * The exception class of refusals (duplicates, within+between, negative / out-of-range id, summaries not stored).
+ * Negative min_span / max_time: this version refuses them (TSK_ERR_BAD_PARAM_VALUE), the docstrings are silent.
+   Accepted: an exception, or the result the definition gives for that value.
+ * Argument containers beyond list / tuple / range / numpy integer arrays are not fed.  A TypeError for one of the
+   fed forms would be a violation (every one of them is converted by util.safe_np_int_cast today).
+
+Audit (lib/AUDIT-BRIEF.md, gap list in AUDIT-C19.md): helpers for the extreme instances, the incremental
+reference used for them and the argument forms live in c19_ext.py.
 """
 import itertools
+import math
+import pickle
 
 import numpy as np
 import tskit
@@ -32,6 +42,7 @@ import tskit
 from lib import gen
 from lib.harness import case_rng
 from lib.model import NODE_IS_SAMPLE, NULL, RowModel, forest
+from lib.props import c19_ext as X
 from lib.tsk import to_tables
 
 ID = "C19"
@@ -86,18 +97,20 @@ def rand_stream(kind, n):
 
 
 def cases(tier, seed):
+    # `aux` alternates the two expensive families (wide: ~0.3 s, ext: ~0.15 s per case) so that one round costs what
+    # it cost before the audit; every family is reached within the first 16 cases after the tiny exhaustive ones.
     if tier == "quick":
         yield from small_cases(1, 2) + small_cases(2, 2) + small_cases(2, 3) + small_cases(3, 2)
         exh = small_cases(4, 2)
+        aux = interleave(rand_stream("ext", 2400), rand_stream("wide", 160))
         yield from interleave((exh, 3), (rand_stream("walk", 120000), 8), rand_stream("manysets", 16),
-                              rand_stream("wide", 160), rand_stream("errors", 1500),
-                              rand_stream("boundary", 300))
+                              aux, rand_stream("errors", 1500), rand_stream("boundary", 600))
     else:
         yield from small_cases(1, 2) + small_cases(2, 2) + small_cases(2, 3) + small_cases(3, 2)
         exh = small_cases(4, 2) + small_cases(3, 3) + small_cases(4, 3) + small_cases(5, 2)
+        aux = interleave(rand_stream("ext", 40000), rand_stream("wide", 20000))
         yield from interleave((exh, 20), (rand_stream("walk", 6000000), 60), rand_stream("manysets", 600),
-                              rand_stream("wide", 20000), rand_stream("errors", 30000),
-                              rand_stream("boundary", 5000))
+                              (aux, 2), rand_stream("errors", 30000), rand_stream("boundary", 10000))
 
 
 # --------------------------------------------------------------------------- reference
@@ -114,6 +127,15 @@ def requested_pairs(m, within, between):
             # a node that no edge mentions has no ancestor but itself and no descendant: it cannot be in any segment
             touched = {e[2] for e in m.edges} | {e[3] for e in m.edges}
             nodes = [u for u in nodes if u in touched]
+        groups = {}
+        for u in nodes:
+            groups.setdefault(sid[u], []).append(u)
+        if len(groups) <= 8:
+            # few sets: the cross products (the same list as below, cheaper when one set is large)
+            out = []
+            for i, j in itertools.combinations(sorted(groups), 2):
+                out += [(a, b) if a < b else (b, a) for a in groups[i] for b in groups[j]]
+            return sorted(out)
         return [(a, b) for a, b in itertools.combinations(nodes, 2) if sid[a] != sid[b]]
     nodes = sorted(int(u) for u in within) if within is not None else m.samples()
     return list(itertools.combinations(nodes, 2))
@@ -160,12 +182,13 @@ def ref_runs(m, pairs, per_row):
     return out
 
 
-def apply_filters(m, runs, min_span, max_time):
+def apply_filters(m, runs, min_span, max_time, inclusive=False):
+    """span > min_span; time[MRCA] < max_time (docstring) or <= max_time (`inclusive`: what the code does)."""
     out = {}
     for p, segs in runs.items():
         keep = [s for s in segs
                 if (min_span is None or s[1] - s[0] > min_span)
-                and (max_time is None or m.time(s[2]) < max_time)]
+                and (max_time is None or m.time(s[2]) < max_time or (inclusive and m.time(s[2]) == max_time))]
         if keep:
             out[p] = sorted(keep)
     return out
@@ -189,9 +212,100 @@ def summary(ref):
     return nseg, span, len(ref)
 
 
-# --------------------------------------------------------------------------- observing the real result
+# --------------------------------------------------------------------------- entry points
 
 STORE = [(False, False), (True, False), (False, True), (True, True)]
+
+
+class Entry:
+    """One tree sequence reached through every public route to the IBD finder: TreeSequence / TableCollection
+    methods, copies, table views, pickles, a collection without indexes, and the low-level module called with
+    keywords, positionally and with its own defaults (max_time defaults to DBL_MAX there, not to inf)."""
+
+    ROUTES = [("ts", 28), ("tc", 22), ("tc.copy", 5), ("ts.dump_tables", 5), ("ts.tables", 5), ("unpickled-ts", 3),
+              ("unpickled-tc", 3), ("tc-no-index", 5), ("ll-kw", 8), ("ll-pos", 8), ("ll-defaults", 8)]
+
+    def __init__(self, ts, tc, routes=None):
+        self.ts, self.tc = ts, tc
+        self.cache = {}
+        rts = [(r, w) for r, w in self.ROUTES if routes is None or r in routes]
+        self.names = [r for r, _ in rts]
+        self.weights = [w for _, w in rts]
+
+    def pick(self, rng):
+        return rng.choices(self.names, self.weights)[0]
+
+    def receiver(self, route):
+        if route in ("ts", "tc"):
+            return getattr(self, route)
+        if route not in self.cache:
+            if route == "tc.copy":
+                o = self.tc.copy()
+            elif route == "ts.dump_tables":
+                o = self.ts.dump_tables()
+            elif route == "ts.tables":
+                o = self.ts.tables
+            elif route == "unpickled-ts":
+                o = pickle.loads(pickle.dumps(self.ts))
+            elif route == "unpickled-tc":
+                o = pickle.loads(pickle.dumps(self.tc))
+            elif route == "tc-no-index":
+                o = self.tc.copy()
+                o.drop_index()
+            else:
+                o = self.tc
+            self.cache[route] = o
+        return self.cache[route]
+
+    def call(self, route, kw, raw):
+        """kw: keyword arguments in the chosen container / number forms; raw: the same call as plain lists
+        (what the low-level routes are given)."""
+        if not route.startswith("ll-"):
+            return self.receiver(route).ibd_segments(**kw)
+        return ll_call(self.tc, route, raw)
+
+
+def ll_call(tc, style, raw):
+    ll = tc._ll_tables
+    within, between = raw.get("within"), raw.get("between")
+    ms, mt = raw.get("min_span"), raw.get("max_time")
+    sp, ss = bool(raw.get("store_pairs")), bool(raw.get("store_segments"))
+    if between is not None:
+        sizes = np.array([len(s) for s in between], dtype=np.uint64)
+        flat = np.array([int(u) for s in between for u in s], dtype=np.int32)
+        f, names, lead = ll.ibd_segments_between, ["sample_set_sizes", "sample_sets"], [sizes, flat]
+    else:
+        samples = None if within is None else np.array([int(u) for u in within], dtype=np.int32)
+        f, names, lead = ll.ibd_segments_within, ["samples"], [samples]
+    if style == "ll-pos":
+        r = f(*lead, 0.0 if ms is None else ms, math.inf if mt is None else mt, int(sp), int(ss))
+    elif style == "ll-kw":
+        kw = {"store_segments": ss, "store_pairs": int(sp), "max_time": X.DBL_MAX if mt is None else mt,
+              "min_span": 0 if ms is None else ms}
+        kw.update(zip(names, lead))
+        r = f(**kw)
+    else:
+        kw = {}
+        if ms is not None:
+            kw["min_span"] = ms
+        if mt is not None:
+            kw["max_time"] = mt
+        if sp:
+            kw["store_pairs"] = True
+        if ss:
+            kw["store_segments"] = True
+        if between is not None:
+            r = f(*lead, **kw)
+        elif within is not None:
+            r = f(lead[0], **kw)
+        else:
+            r = f(**kw)
+    # the documented result class is a thin view of the low-level object
+    return tskit.IdentitySegments(r, max_time=math.inf if mt is None else mt, min_span=0 if ms is None else ms,
+                                  store_segments=ss, store_pairs=sp)
+
+
+# --------------------------------------------------------------------------- observing the real result
 
 
 def must_raise(ctx, f, key, msg, detail):
@@ -204,8 +318,26 @@ def must_raise(ctx, f, key, msg, detail):
     return False
 
 
-def observe(ctx, res, sp, ss, witness):
-    """Read everything the documented interface offers for this store choice into plain data."""
+def seg_tuples(sl):
+    left, right, node = np.asarray(sl.left), np.asarray(sl.right), np.asarray(sl.node)
+    return sorted(zip(left.tolist(), right.tolist(), node.tolist())), (left.dtype == np.float64,
+                                                                      right.dtype == np.float64,
+                                                                      node.dtype == np.int32)
+
+
+def key_form(rng, a, b):
+    r = rng.random()
+    if r < 0.6:
+        return (a, b)
+    if r < 0.8:
+        return (np.int32(a), np.int32(b))
+    return (np.int64(a), int(b))
+
+
+def observe(ctx, res, sp, ss, witness, rng, sampled=False):
+    """Read everything the documented interface offers for this store choice into plain data.  The pair keys are
+    read through one of four equivalent routes (iteration, keys(), items(), the pairs array), the lists through
+    __getitem__ with python / numpy integer keys or from items()/values()."""
     o = {"num_segments": int(res.num_segments), "total_span": float(res.total_span)}
     stored_pairs = sp or ss
     if not stored_pairs:
@@ -213,31 +345,72 @@ def observe(ctx, res, sp, ss, witness):
         must_raise(ctx, lambda: res.pairs, "ibd/pairs-not-stored-but-accessible", "pairs", witness)
         must_raise(ctx, lambda: list(res), "ibd/pairs-not-stored-but-accessible", "iteration", witness)
         must_raise(ctx, lambda: res[(0, 1)], "ibd/pairs-not-stored-but-accessible", "result[(0,1)]", witness)
+        must_raise(ctx, lambda: len(res), "ibd/pairs-not-stored-but-accessible", "len()", witness)
+        must_raise(ctx, lambda: list(res.items()), "ibd/pairs-not-stored-but-accessible", "items()", witness)
+        if rng.random() < 0.1:
+            o["str"] = str(res)
         return o
     o["num_pairs"] = int(res.num_pairs)
     o["len"] = len(res)
     pa = np.asarray(res.pairs)
     o["pairs_shape"] = tuple(pa.shape)
-    o["pairs"] = sorted((int(a), int(b)) for a, b in pa.reshape(-1, 2))
-    o["keys"] = sorted((int(a), int(b)) for a, b in res)
+    o["pairs_dtype"] = str(pa.dtype)
+    o["pairs"] = sorted((int(a), int(b)) for a, b in pa.reshape(-1, 2).tolist())
+    how = rng.choice(["iter", "iter", "keys", "items", "values", "pairs-array"])
+    ctx.feature("result-read-through:" + how)
+    lists = {}
+    if how == "iter":
+        keys = [(int(a), int(b)) for a, b in res]
+    elif how == "keys":
+        keys = [(int(a), int(b)) for a, b in res.keys()]
+    elif how == "items":
+        keys = []
+        for (a, b), sl in res.items():
+            keys.append((int(a), int(b)))
+            lists[keys[-1]] = sl
+    elif how == "values":
+        keys = [(int(a), int(b)) for a, b in res]
+        vals = list(res.values())
+        if len(vals) == len(keys):
+            lists = dict(zip(keys, vals))
+        else:
+            o["values_len"] = len(vals)
+    else:
+        keys = list(o["pairs"])
+    o["keys"] = sorted(keys)
+    full = set(range(len(o["keys"]))) if not sampled else set(
+        list(range(min(40, len(keys)))) + list(range(max(0, len(keys) - 40), len(keys)))
+        + [rng.randrange(len(keys)) for _ in range(120 if keys else 0)])
     per = {}
-    for a, b in o["keys"]:
-        sl = res[(a, b)]
+    for i, (a, b) in enumerate(o["keys"]):
+        sl = lists[(a, b)] if (a, b) in lists else res[key_form(rng, a, b)]
         d = {"n": len(sl), "span": float(sl.total_span)}
-        rev = res[(b, a)]
-        d["rev"] = (len(rev), float(rev.total_span))
-        if ss:
-            left, right, node = np.asarray(sl.left), np.asarray(sl.right), np.asarray(sl.node)
-            d["arrays"] = sorted(zip(left.tolist(), right.tolist(), node.tolist()))
-            d["dtypes"] = (left.dtype == np.float64, right.dtype == np.float64, node.dtype == np.int32)
-            d["objs"] = sorted((s.left, s.right, s.node) for s in sl)
-            d["obj_span"] = sum(s.span for s in sl)
-        elif len(per) < 4:
-            must_raise(ctx, lambda: sl.left, "ibd/segments-not-stored-but-accessible", "left", witness)
-            must_raise(ctx, lambda: sl.node, "ibd/segments-not-stored-but-accessible", "node", witness)
-            must_raise(ctx, lambda: list(sl), "ibd/segments-not-stored-but-accessible", "iteration", witness)
+        if i in full:
+            rev = res[(b, a)]
+            d["rev"] = (len(rev), float(rev.total_span))
+            if i < 3:
+                d["in"] = ((a, b) in res, (b, a) in res, res.get((a, b)) is not None)
+            if ss:
+                d["arrays"], d["dtypes"] = seg_tuples(sl)
+                segs = list(sl)
+                d["objs"] = sorted((s.left, s.right, s.node) for s in segs)
+                d["obj_span"] = sum(s.span for s in segs)
+                d["obj_types"] = all(type(s.left) is float and type(s.right) is float and type(s.node) is int
+                                     for s in segs)
+            elif len(per) < 4:
+                must_raise(ctx, lambda: sl.left, "ibd/segments-not-stored-but-accessible", "left", witness)
+                must_raise(ctx, lambda: sl.right, "ibd/segments-not-stored-but-accessible", "right", witness)
+                must_raise(ctx, lambda: sl.node, "ibd/segments-not-stored-but-accessible", "node", witness)
+                must_raise(ctx, lambda: list(sl), "ibd/segments-not-stored-but-accessible", "iteration", witness)
         per[(a, b)] = d
     o["per"] = per
+    if rng.random() < 0.1:
+        o["str"] = str(res)
+        if len(keys) <= 12 and o["num_segments"] <= 200:
+            o["repr"] = repr(res)
+            if per:
+                k0 = o["keys"][0]
+                o["list_str"] = (str(res[k0]), per[k0]["n"], per[k0]["span"])
     return o
 
 
@@ -248,128 +421,242 @@ def matches(o, ref, sp, ss):
         return f"num_segments={o['num_segments']} expected {nseg}"
     if o["total_span"] != span:
         return f"total_span={o['total_span']} expected {span}"
+    if "str" in o:
+        # the printed summary shows the same totals (the table layout itself is not asserted)
+        if str(nseg) not in o["str"] or str(float(span)) not in o["str"]:
+            return f"str(result) does not show num_segments={nseg} and total_span={float(span)}: {o['str']!r}"
     if not (sp or ss):
         return None
     if o["num_pairs"] != npairs or o["len"] != npairs:
         return f"num_pairs={o['num_pairs']} len={o['len']} expected {npairs}"
+    if o.get("values_len", npairs) != npairs:
+        return f"len(values())={o['values_len']} expected {npairs}"
     exp_keys = sorted(ref)
     if o["keys"] != exp_keys:
-        return f"keys={o['keys']} expected {exp_keys}"
+        return f"keys={_short(o['keys'])} expected {_short(exp_keys)}"
     if o["pairs"] != exp_keys or o["pairs_shape"] != (npairs, 2):
-        return f"pairs array {o['pairs']} shape {o['pairs_shape']} expected {exp_keys}"
+        return f"pairs array {_short(o['pairs'])} shape {o['pairs_shape']} expected {_short(exp_keys)}"
+    if o["pairs_dtype"] != "int32":
+        return f"pairs array has dtype {o['pairs_dtype']}, documented int32"
     for p in exp_keys:
         d = o["per"][p]
         e = ref[p]
         es = sum(s[1] - s[0] for s in e)
         if d["n"] != len(e) or d["span"] != es:
             return f"pair {p}: num_segments={d['n']} total_span={d['span']} expected {len(e)}, {es}"
-        if d["rev"] != (len(e), es):
+        if "rev" in d and d["rev"] != (len(e), es):
             return f"pair {p} accessed as {(p[1], p[0])}: {d['rev']} expected {(len(e), es)}"
-        if ss:
+        if "in" in d and d["in"] != (True, True, True):
+            return f"pair {p}: ((a,b) in result, (b,a) in result, result.get((a,b)) is not None) = {d['in']}"
+        if ss and "arrays" in d:
             if d["arrays"] != e:
-                return f"pair {p}: segments {d['arrays']} expected {e}"
-            if d["objs"] != e or d["obj_span"] != es:
-                return f"pair {p}: IdentitySegment objects {d['objs']} expected {e}"
+                return f"pair {p}: segments {_short(d['arrays'])} expected {_short(e)}"
+            if d["objs"] != e or d["obj_span"] != es or not d["obj_types"]:
+                return f"pair {p}: IdentitySegment objects {_short(d['objs'])} expected {_short(e)}"
             if d["dtypes"] != (True, True, True):
                 return f"pair {p}: left/right/node arrays are not float64/float64/int32"
+    if "list_str" in o:
+        s_, n_, sp_ = o["list_str"]
+        if str(n_) not in s_ or str(sp_) not in s_:
+            return f"str(segment list) {s_!r} does not show num_segments={n_} total_span={sp_}"
     return None
 
 
-def jsonable_args(args):
-    def conv(x):
-        if isinstance(x, (list, tuple)) and len(x) > 2000:
-            return f"<{len(x)} entries, first {conv(list(x[:3]))}>"
-        if isinstance(x, np.ndarray):
-            return x.tolist()
-        if isinstance(x, (list, tuple)):
-            return [conv(y) for y in x]
-        if isinstance(x, (np.integer,)):
-            return int(x)
-        return x
-    return {k: conv(v) for k, v in args.items()}
+def _short(x):
+    return x if len(x) <= 40 else f"<{len(x)} entries: {x[:6]} ... {x[-3:]}>"
 
 
-def check_call(ctx, m, objs, within, between, min_span, max_time, rng, refcache, gated=True):
-    """One argument set, all four store options, possibly alternating the entry point."""
-    pairs = requested_pairs(m, within, between)
-    key = tuple(pairs)
+def witness_model(m):
+    return getattr(m, "desc", None) or m.to_json()
+
+
+def check_call(ctx, m, ent, within, between, min_span, max_time, rng, refcache, *, ref_sets=None, relabel=None,
+               sampled=False, forms=True):
+    """One argument set under all four store options; every call picks its own entry point, container forms and
+    number forms.  `within` / `between` are plain id lists in the ids of the tables; when the tables embed the
+    model under other ids, `ref_sets` are the same sets in model ids and `relabel` maps model ids to table ids."""
+    rw, rb = ref_sets if ref_sets is not None else (within, between)
+    pairs = requested_pairs(m, rw, rb)
+    key = tuple(pairs) if len(pairs) < 3000 else ("many", len(pairs), hash(tuple(pairs)))
     if key not in refcache:
-        link = ref_runs(m, pairs, per_row=False)
-        row = ref_runs(m, pairs, per_row=True) if refcache["unsquashed"] else link
+        rr = refcache.get("ref", ref_runs)
+        link = rr(m, pairs, False)
+        row = rr(m, pairs, True) if refcache["unsquashed"] else link
         refcache[key] = (link, row)
     link, row = refcache[key]
-    ref_link = apply_filters(m, link, min_span, max_time)
-    ref_row = apply_filters(m, row, min_span, max_time) if row is not link else ref_link
-    args = {}
+    cands = []
+    for reading, runs in ((("row", row), ("link", link)) if row is not link else (("row", row),)):
+        for rule in ("strict", "inclusive"):
+            if rule == "inclusive" and max_time is None:
+                continue
+            ref = apply_filters(m, runs, min_span, max_time, inclusive=rule == "inclusive")
+            if relabel is not None:
+                ref = X.relabel_ref(ref, relabel)
+            same = [c for c in cands if c[2] == ref]
+            if same:
+                same[0][3].add((reading, rule))
+            else:
+                cands.append((reading, rule, ref, {(reading, rule)}))
+    # the strict and the inclusive reading differ for this call: max_time sits exactly on the time of an MRCA
+    on_boundary = any({lab[1] for lab in c[3]} != {"strict", "inclusive"} for c in cands) and max_time is not None
+    if on_boundary:
+        ctx.feature("max_time:exactly-the-time-of-an-MRCA(two candidates)")
+    may_raise = (min_span is not None and min_span < 0) or (max_time is not None and max_time < 0)
+    raw = {}
     if within is not None:
-        args["within"] = within
+        raw["within"] = within
     if between is not None:
-        args["between"] = between
+        raw["between"] = between
     if min_span is not None:
-        args["min_span"] = min_span
+        raw["min_span"] = min_span
     if max_time is not None:
-        args["max_time"] = max_time
-    witness = {"model": m.to_json(), "args": jsonable_args(args)}
-    readings = []
+        raw["max_time"] = max_time
+    witness = {"model": witness_model(m), "args": {k: X.plain(v) for k, v in raw.items()}}
+    ok_sets = []
     obs = []
+    prev = None
     for sp, ss in STORE:
-        kw = dict(args)
-        # exercise None and explicit False alike
+        kw = {}
+        fm = []
+        if within is not None:
+            if forms:
+                f, kw["within"] = X.id_container(rng, within)
+                fm.append("within-as:" + f)
+            else:
+                kw["within"] = within
+        if between is not None:
+            if forms:
+                f, kw["between"] = X.between_container(rng, between)
+                fm.append("between-as:" + f)
+            else:
+                kw["between"] = between
+        if min_span is not None:
+            kw["min_span"] = X.num_form(rng, min_span) if forms else min_span
+            fm.append("number-as:" + type(kw["min_span"]).__name__)
+        if max_time is not None:
+            kw["max_time"] = X.num_form(rng, max_time) if forms else max_time
+            fm.append("number-as:" + type(kw["max_time"]).__name__)
+        # exercise None, explicit False and the integers 0 / 1 alike
         if sp or rng.random() < 0.5:
-            kw["store_pairs"] = sp
+            kw["store_pairs"] = sp if rng.random() < 0.85 else int(sp)
         if ss or rng.random() < 0.5:
-            kw["store_segments"] = ss
-        obj = objs[rng.randrange(len(objs))]
+            kw["store_segments"] = ss if rng.random() < 0.85 else int(ss)
+        if rng.random() < 0.15:
+            for k in ("within", "between", "min_span", "max_time", "store_pairs", "store_segments"):
+                kw.setdefault(k, None)  # None is the documented default of every argument
+            fm.append("explicit-None-defaults")
+        route = ent.pick(rng)
+        rawc = dict(raw, store_pairs=sp, store_segments=ss)
+        how = f"route={route} forms={fm} store_pairs={kw.get('store_pairs', '<omitted>')!r} " \
+              f"store_segments={kw.get('store_segments', '<omitted>')!r}"
         try:
-            res = obj.ibd_segments(**kw)
+            res = ent.call(route, kw, rawc)
         except Exception as e:
             ctx.count("ibd:call")
-            report(ctx, "ibd/valid-call-raises", f"{type(e).__name__}: {e}; args={witness['args']} "
-                   f"store_pairs={sp} store_segments={ss} model={witness['model']}", witness)
-            return
+            if may_raise:
+                ctx.feature("negative-filter:refused")
+                return None
+            report(ctx, "ibd/valid-call-raises", f"{type(e).__name__}: {e}; args={witness['args']} {how} "
+                   f"model={witness['model']}", witness)
+            return None
         ctx.count("ibd:call")
+        ctx.feature("route:" + route)
+        for f in fm:
+            ctx.feature(f)
+        if may_raise:
+            ctx.feature("negative-filter:accepted")
         try:
-            o = observe(ctx, res, sp, ss, witness)
+            o = observe(ctx, res, sp, ss, witness, rng, sampled)
         except Exception as e:
             report(ctx, "ibd/documented-accessor-raises", f"{type(e).__name__}: {e} while reading the result of "
-                   f"store_pairs={sp} store_segments={ss} args={witness['args']}; model={witness['model']}", witness)
-            readings.append(None)
+                   f"{how} args={witness['args']}; model={witness['model']}", witness)
+            ok_sets.append(None)
             continue
         obs.append(o)
-        d_row = matches(o, ref_row, sp, ss)
-        d_link = matches(o, ref_link, sp, ss) if ref_link is not ref_row else d_row
+        diffs = [matches(o, c[2], sp, ss) for c in cands]
         ctx.count("oracle:segments-equal-reference" if ss else
                   ("oracle:pair-summaries-equal-reference" if sp else "oracle:totals-equal-reference"))
-        if d_row is not None and d_link is not None:
-            if gated:
-                k = "ibd/segments-differ-from-definition"
-                if min_span is not None and max_time is None:
-                    k += "/min_span"
-                elif max_time is not None and min_span is None:
-                    k += "/max_time"
-                elif max_time is not None:
-                    k += "/min_span+max_time"
-                report(ctx, k, f"store_pairs={sp} store_segments={ss} args={witness['args']}: {d_row}"
-                       + (f" (per-link reading: {d_link})" if d_link != d_row else "")
-                       + f"; model={witness['model']}", witness)
-            readings.append(None)
+        ok = {i for i, d in enumerate(diffs) if d is None}
+        ok_sets.append(ok)
+        if not ok:
+            k = "ibd/segments-differ-from-definition"
+            if min_span is not None and max_time is None:
+                k += "/min_span"
+            elif max_time is not None and min_span is None:
+                k += "/max_time"
+            elif max_time is not None:
+                k += "/min_span+max_time"
+            others = "".join(f" ({c[0]}/{c[1]} reading: {d})" for c, d in zip(cands[1:], diffs[1:]) if d != diffs[0])
+            report(ctx, k, f"{how} args={witness['args']}: {diffs[0]}{others}; model={witness['model']}", witness)
             continue
-        readings.append("row" if d_row is None else "link")
-        if ref_link is not ref_row and summary(ref_link) != summary(ref_row):
-            ctx.feature("unsquashed-reading:" + readings[-1])
+        ok_read = {lab[0] for i in ok for lab in cands[i][3]}
+        if len(ok_read) == 1 and row is not link:
+            ctx.feature("unsquashed-reading:" + min(ok_read))
         # no filters: disjoint and covering exactly where the pair has an MRCA
         if ss and min_span is None and max_time is None:
             ctx.count("oracle:disjoint-and-covering")
             for p, d in o["per"].items():
-                segs = d["arrays"]
+                segs = d.get("arrays", ())
                 if any(s0[1] > s1[0] for s0, s1 in zip(segs, segs[1:])):
-                    report(ctx, "ibd/overlapping-segments", f"pair {p}: {segs}; args={witness['args']} "
+                    report(ctx, "ibd/overlapping-segments", f"pair {p}: {_short(segs)}; args={witness['args']} "
                            f"model={witness['model']}", witness)
-    if not gated:
-        return obs
-    # consistency across store options (same reading, same numbers)
+        # an earlier result is a value: a later call on the same tables must not change it
+        if prev is not None and rng.random() < 0.3:
+            ctx.count("oracle:earlier-result-unchanged")
+            pres, po = prev
+            now = (int(pres.num_segments), float(pres.total_span))
+            if now != (po["num_segments"], po["total_span"]):
+                report(ctx, "ibd/earlier-result-changed-by-later-call", f"totals were "
+                       f"{(po['num_segments'], po['total_span'])}, are {now} after {how}; args={witness['args']} "
+                       f"model={witness['model']}", witness)
+        prev = (res, o)
+        if ss and not sampled and o["keys"]:
+            r = rng.random()
+            k0 = o["keys"][rng.randrange(len(o["keys"]))]
+            if r < 0.08:
+                # the same call again (another route): equal as mappings, list by list
+                ctx.count("oracle:same-call-equal-result")
+                try:
+                    res2 = ent.call(ent.pick(rng), kw, rawc)
+                    eq = (res == res2, res2 == res)
+                    eq = (eq[0], k0 in res2 and res[k0] == res2[k0], eq[1])
+                except Exception as e:
+                    report(ctx, "ibd/documented-accessor-raises", f"{type(e).__name__}: {e} while comparing two "
+                           f"results of {how} args={witness['args']}; model={witness['model']}", witness)
+                else:
+                    if eq != (True, True, True):
+                        report(ctx, "ibd/same-call-unequal-results", f"(res == res2, res[{k0}] == res2[{k0}], "
+                               f"res2 == res) = {eq} for {how} args={witness['args']}; "
+                               f"model={witness['model']}", witness)
+            elif r < 0.16:
+                # a segment list outlives the result object it came from
+                ctx.count("oracle:list-outlives-result")
+                sl = res[k0]
+                prev = None
+                del res
+                try:
+                    got = (seg_tuples(sl)[0], len(sl), float(sl.total_span))
+                except Exception as e:
+                    report(ctx, "ibd/documented-accessor-raises", f"{type(e).__name__}: {e} reading a segment list "
+                           f"after its result was dropped; {how} args={witness['args']}", witness)
+                else:
+                    d = o["per"][k0]
+                    if got != (d["arrays"], d["n"], d["span"]):
+                        report(ctx, "ibd/segment-list-changed-after-result-dropped", f"pair {k0}: {_short(got[0])}, "
+                               f"{got[1:]} expected {_short(d['arrays'])}, {(d['n'], d['span'])}; {how} "
+                               f"args={witness['args']} model={witness['model']}", witness)
+    # consistency across store options: ONE reading (per-row / per-link, strict / inclusive) fits all four
     ctx.count("oracle:store-options-consistent")
-    if len(obs) == 4 and None not in readings:
+    if len(ok_sets) == 4 and all(ok_sets):
+        common = set.intersection(*ok_sets)
+        if not common:
+            report(ctx, "ibd/store-options-disagree", "no single reading fits all four store options: "
+                   f"{[sorted(lab for i in s for lab in cands[i][3]) for s in ok_sets]} (order {STORE}); "
+                   f"args={witness['args']} model={witness['model']}", witness)
+        elif on_boundary:
+            rules = {lab[1] for i in common for lab in cands[i][3]}
+            ctx.feature("boundary:time==max_time " + ("kept (inclusive)" if rules == {"inclusive"} else
+                                                     "dropped (strict)" if rules == {"strict"} else "undecided"))
         base = obs[0]
         for o, (sp, ss) in zip(obs[1:], STORE[1:]):
             if (o["num_segments"], o["total_span"]) != (base["num_segments"], base["total_span"]):
@@ -378,13 +665,15 @@ def check_call(ctx, m, objs, within, between, min_span, max_time, rng, refcache,
                        f"(store_pairs={sp}, store_segments={ss}); args={witness['args']} "
                        f"model={witness['model']}", witness)
         ps = [o for o in obs if "per" in o]
+        a = {p: (d["n"], d["span"]) for p, d in ps[0]["per"].items()}
         for o in ps[1:]:
-            a = {p: (d["n"], d["span"]) for p, d in ps[0]["per"].items()}
             b = {p: (d["n"], d["span"]) for p, d in o["per"].items()}
             if a != b:
-                report(ctx, "ibd/store-options-disagree", f"per-pair summaries differ: {a} vs {b}; "
-                       f"args={witness['args']} model={witness['model']}", witness)
-        if obs[2]["per"] != obs[3]["per"]:
+                report(ctx, "ibd/store-options-disagree", f"per-pair summaries differ: {_short(sorted(a.items()))} vs "
+                       f"{_short(sorted(b.items()))}; args={witness['args']} model={witness['model']}", witness)
+        sa = {p: d["arrays"] for p, d in obs[2]["per"].items() if "arrays" in d}
+        sb = {p: d["arrays"] for p, d in obs[3]["per"].items() if "arrays" in d}
+        if any(sa[p] != sb[p] for p in sa if p in sb):
             report(ctx, "ibd/store-options-disagree", "segments differ between store_segments with and "
                    f"without store_pairs; args={witness['args']} model={witness['model']}", witness)
     return obs
@@ -403,19 +692,8 @@ def time_cuts(m):
     return [c for c in cuts if c >= 0 and c not in ts_]
 
 
-def as_container(rng, ids):
-    r = rng.random()
-    if r < 0.5:
-        return list(ids)
-    if r < 0.75:
-        return np.array(ids, dtype=np.int32)
-    if r < 0.9:
-        return np.array(ids, dtype=np.int64)
-    return tuple(ids)
-
-
 def draw_sets(rng, m, maxn=None):
-    """(within, between): default / within any nodes / between partitions."""
+    """(within, between) as plain id lists: default / within any nodes / between partitions."""
     n = m.num_nodes
     r = rng.random()
     if r < 0.25 or n == 0:
@@ -426,23 +704,82 @@ def draw_sets(rng, m, maxn=None):
         ids = rng.sample(allnodes, min(k, n, maxn or n))
         if rng.random() < 0.3:
             ids = [u for u in ids if m.is_sample(u)] or ids
-        return as_container(rng, ids), None
+        if rng.random() < 0.15:
+            ids = sorted(ids)  # the `range` and strided forms need an ordered list now and then
+        if rng.random() < 0.05 and n >= 2:
+            a = rng.randrange(n - 1)
+            ids = list(range(a, rng.randint(a + 1, n)))
+        return ids, None
     pool = rng.sample(allnodes, rng.randint(0, min(n, maxn or n)))
-    nsets = rng.choice([1, 2, 2, 2, 3, 4])
+    r = rng.random()
+    if r < 0.04:
+        return None, []  # no sets at all: no pair is requested
+    if r < 0.14:
+        return None, [[u] for u in pool]  # one singleton set per node: every pair is requested
+    if r < 0.22 and len(pool) >= 2:
+        h = len(pool) // 2
+        return None, [pool[:h], pool[h:2 * h]]  # equal sizes: also fed as ONE 2-d array
+    nsets = rng.choice([1, 2, 2, 2, 3, 4, 7])
     sets = [[] for _ in range(nsets)]
     for u in pool:
         sets[rng.randrange(nsets)].append(u)
-    if rng.random() < 0.5:
-        return None, [as_container(rng, s) if len(s) else [] for s in sets]
+    if rng.random() < 0.1:
+        sets = [[]] + sets + [[]]
     return None, sets
 
 
-def span_choices(m, runs):
-    spans = sorted({s[1] - s[0] for v in runs.values() for s in v})
-    out = [0, 0.0, m.L, m.L / 2, m.L * 2, m.L / 16]
-    out += spans  # exactly a span: "greater than" excludes it
-    out += [s / 2 for s in spans[:3]]
-    return out
+def draw_filters(ctx, rng, m, spans, mtimes, cuts):
+    """(min_span, max_time): grids, EXACT spans / MRCA times and the doubles next to them, zero and negative
+    zero, inf / DBL_MAX, now and then a negative value (EITHER: refused or as defined)."""
+    L = m.L
+    r = rng.random()
+    if r < 0.25:
+        ms = None
+    elif r < 0.42 or not spans:
+        ms = rng.choice([0, 0.0, -0.0, L, L / 2, L * 2, L / 16])
+        ctx.feature("min_span:grid")
+    elif r < 0.68:
+        ms = rng.choice(spans)
+        ctx.feature("min_span:exactly-a-segment-span")
+    elif r < 0.80:
+        s = rng.choice(spans)
+        ms = rng.choice([X.next_up(s), X.next_down(s)])
+        ctx.feature("min_span:next-double-to-a-span")
+    elif r < 0.96:
+        ms = rng.choice(spans[:3]) / 2
+        ctx.feature("min_span:half-a-span")
+    else:
+        ms = rng.choice([-1.0, -0.5, -L])
+        ctx.feature("min_span:negative")
+    r = rng.random()
+    if r < 0.34:
+        mt = None
+    elif r < 0.58 and cuts:
+        mt = rng.choice(cuts)
+        ctx.feature("max_time:between-node-times")
+    elif r < 0.70 and mtimes:
+        mt = rng.choice(mtimes)
+        ctx.feature("max_time:exactly-an-MRCA-time")
+    elif r < 0.82 and mtimes:
+        t = rng.choice(mtimes)
+        mt = rng.choice([X.next_up(t), X.next_down(t)])
+        ctx.feature("max_time:next-double-to-an-MRCA-time")
+    elif r < 0.89:
+        mt = rng.choice([0, 0.0, -0.0])
+        ctx.feature("max_time:zero")
+    elif r < 0.96:
+        mt = rng.choice([math.inf, X.DBL_MAX])
+        ctx.feature("max_time:inf-or-DBL_MAX")
+    else:
+        mt = rng.choice([-1.0, -0.25])
+        ctx.feature("max_time:negative")
+    if ms is None and mt is None:
+        ms = rng.choice(spans) if spans else 0.0
+    if ms is not None:
+        ctx.feature("min_span")
+    if mt is not None:
+        ctx.feature("max_time")
+    return ms, mt
 
 
 # --------------------------------------------------------------------------- case runners
@@ -472,14 +809,20 @@ def small_model(n, pms, mask, squash):
     return m
 
 
-def objects(rng, m):
-    tc = to_tables(m)
+def objects(rng, m, fast=False, routes=None):
+    tc = X.fast_tables(m) if fast else to_tables(m)
     ts = tc.tree_sequence()
-    return ts, tc, [ts, ts, tc]
+    return Entry(ts, tc, routes)
+
+
+def filter_inputs(m, link):
+    spans = sorted({s[1] - s[0] for v in link.values() for s in v})
+    mtimes = sorted({m.time(s[2]) for v in link.values() for s in v})
+    return spans, mtimes
 
 
 def run_model(ctx, rng, m, ncalls, maxn=None, small=False, wide=False):
-    ts, tc, objs = objects(rng, m)
+    ent = objects(rng, m)
     refcache = {"unsquashed": has_unsquashed(m)}
     if refcache["unsquashed"]:
         ctx.feature("unsquashed-edges")
@@ -492,7 +835,7 @@ def run_model(ctx, rng, m, ncalls, maxn=None, small=False, wide=False):
         elif wide:
             ids = rng.sample(range(m.num_nodes), rng.randint(64, min(maxn, m.num_nodes)))
             if rng.random() < 0.6:
-                within, between = as_container(rng, ids), None
+                within, between = ids, None
             else:
                 within, between = None, [ids[0::3], ids[1::3], ids[2::3]]
             ctx.feature("wide:>=64 requested nodes under one edge")
@@ -500,30 +843,21 @@ def run_model(ctx, rng, m, ncalls, maxn=None, small=False, wide=False):
             within, between = draw_sets(rng, m, maxn)
         pairs = requested_pairs(m, within, between)
         ctx.feature("sets:" + ("between" if between is not None else "within" if within is not None else "default"))
+        if between is not None:
+            ctx.feature("between:%s sets" % (len(between) if len(between) < 5 else ">=5"))
         if any(forest_is_ancestor(m, a, b) for a, b in pairs[:30]):
             ctx.feature("ancestor-descendant-pair")
         # unfiltered call first, then filter grids on the same sets
-        obs = check_call(ctx, m, objs, within, between, None, None, rng, refcache)
-        link = refcache[tuple(pairs)][0]
+        check_call(ctx, m, ent, within, between, None, None, rng, refcache)
+        link = refcache[tuple(pairs) if len(pairs) < 3000 else ("many", len(pairs), hash(tuple(pairs)))][0]
         if not any(link.values()):
             ctx.feature("no-segments")
             if rng.random() < 0.7:
                 continue
-        sc = span_choices(m, link)
-        r = rng.random()
-        nf = 3 if small else 2
-        for _ in range(nf):
-            ms = rng.choice(sc) if rng.random() < 0.7 else None
-            mt = rng.choice(cuts) if cuts and rng.random() < 0.6 else None
-            if rng.random() < 0.05:
-                mt = float("inf")
-            if ms is None and mt is None:
-                ms = rng.choice(sc)
-            if ms is not None:
-                ctx.feature("min_span")
-            if mt is not None:
-                ctx.feature("max_time")
-            check_call(ctx, m, objs, within, between, ms, mt, rng, refcache)
+        spans, mtimes = filter_inputs(m, link)
+        for _ in range(3 if small else 2):
+            ms, mt = draw_filters(ctx, rng, m, spans, mtimes, cuts)
+            check_call(ctx, m, ent, within, between, ms, mt, rng, refcache)
 
 
 SET_INDEXES = [0, 1, 127, 128, 255, 256, 32767, 32768, 65535, 65536, 65537, 65536 + 127, 65536 + 255, 65536 + 256]
@@ -558,11 +892,11 @@ def run_manysets(ctx, rng):
     ctx.count("manysets:calls")
     ctx.feature("manysets:>65536 singleton sets")
     refcache = {"unsquashed": has_unsquashed(m)}
-    objs = [ts, tc]
-    check_call(ctx, m, objs, None, between, None, None, rng, refcache)
+    ent = Entry(ts, tc, routes=("ts", "tc", "ll-pos", "ll-kw"))
+    check_call(ctx, m, ent, None, between, None, None, rng, refcache, forms=False)
     cuts = time_cuts(m)
     if cuts and rng.random() < 0.5:
-        check_call(ctx, m, objs, None, between, None, rng.choice(cuts), rng, refcache)
+        check_call(ctx, m, ent, None, between, None, rng.choice(cuts), rng, refcache, forms=False)
     # fewer sets than nodes: the same embedding with the isolated nodes grouped 3 by 3 (about 22000 sets)
     if rng.random() < 0.3:
         grouped, cur = [], []
@@ -578,7 +912,7 @@ def run_manysets(ctx, rng):
         if cur:
             grouped.append(cur)
         ctx.feature("manysets:grouped")
-        check_call(ctx, m, objs, None, grouped, None, None, rng, refcache)
+        check_call(ctx, m, ent, None, grouped, None, None, rng, refcache, forms=False)
 
 
 def wide_model(rng):
@@ -633,11 +967,12 @@ def forest_is_ancestor(m, a, b):
 
 
 def run_errors(ctx, rng, m):
-    ts, tc, objs = objects(rng, m)
+    ent = objects(rng, m)
+    ts, tc = ent.ts, ent.tc
     n = m.num_nodes
     if n < 2:
         return
-    obj = rng.choice(objs)
+    obj = rng.choice([ts, ts, tc])
     w = {"model": m.to_json()}
     ids = rng.sample(range(n), rng.randint(1, n))
     d = ids + [rng.choice(ids)]
@@ -653,8 +988,9 @@ def run_errors(ctx, rng, m):
     must_raise(ctx, lambda: obj.ibd_segments(between=sets, store_pairs=True), "ibd/duplicate-node-accepted",
                f"between={sets} model={w['model']}", w)
     ctx.feature("error:duplicate-between")
-    must_raise(ctx, lambda: obj.ibd_segments(within=[0], between=[[0], [1]]), "ibd/within-and-between-accepted",
-               f"within=[0], between=[[0],[1]] model={w['model']}", w)
+    for o in (ts, tc):
+        must_raise(ctx, lambda: o.ibd_segments(within=[0], between=[[0], [1]]), "ibd/within-and-between-accepted",
+                   f"within=[0], between=[[0],[1]] model={w['model']}", w)
     ctx.feature("error:within-and-between")
     neg = ids[:2] + [-1]
     must_raise(ctx, lambda: obj.ibd_segments(within=neg), "ibd/negative-node-accepted",
@@ -662,12 +998,32 @@ def run_errors(ctx, rng, m):
     must_raise(ctx, lambda: obj.ibd_segments(between=[ids[:1], [-1]]), "ibd/negative-node-accepted",
                f"between={[ids[:1], [-1]]} model={w['model']}", w)
     ctx.feature("error:negative-id")
-    # a pair without segments is not a key
+    # ids that are not nodes: exactly num_nodes, beyond, INT32_MAX, and values a wrapping cast would turn into node 0 / n-1
+    bad = rng.choice([n, n, n + 1, 2 ** 31 - 1, 2 ** 31, 2 ** 32, 2 ** 32 + n - 1, -2, -2 ** 31, -2 ** 32])
+    others = [u for u in ids if u != 0 and u != n - 1][:2]
+    lst = others + [bad]
+    rng.shuffle(lst)
+    form = rng.choice(["list", "int64", "tuple"])
+    arg = lst if form == "list" else tuple(lst) if form == "tuple" else np.array(lst, dtype=np.int64)
+    must_raise(ctx, lambda: obj.ibd_segments(within=arg, store_pairs=True), "ibd/out-of-range-node-accepted",
+               f"within={lst} (as {form}), num_nodes={n} model={w['model']}", w)
+    must_raise(ctx, lambda: obj.ibd_segments(between=[others, [bad]], store_segments=True),
+               "ibd/out-of-range-node-accepted", f"between={[others, [bad]]}, num_nodes={n} model={w['model']}", w)
+    ctx.feature("error:id-not-a-node:" + ("num_nodes" if bad == n else "other"))
+    # the low-level module refuses set sizes that do not add up to the id array
+    if len(ids) >= 2:
+        sizes = [len(ids) - 1, rng.choice([0, 2, 3])]
+        must_raise(ctx, lambda: tc._ll_tables.ibd_segments_between(np.array(sizes, dtype=np.uint64),
+                                                                   np.array(ids, dtype=np.int32)),
+                   "ibd/ll-set-sizes-not-matching-accepted", f"sample_set_sizes={sizes} for {len(ids)} ids", w)
+        ctx.feature("error:ll-set-sizes")
+    # a pair without segments is not a key; (a, a), ids that are not nodes and non-pairs are refused
     res = obj.ibd_segments(within=ids, store_segments=True)
     keys = {(int(a), int(b)) for a, b in res}
     for a, b in itertools.combinations(sorted(ids), 2):
         if (a, b) not in keys:
             ctx.count("oracle:absent-pair-keyerror")
+            ctx.count("oracle:must-raise")
             try:
                 r = res[(a, b)]
             except KeyError:
@@ -678,35 +1034,206 @@ def run_errors(ctx, rng, m):
             else:
                 report(ctx, "ibd/absent-pair-not-keyerror", f"result[{(a, b)}] returned {r!r} for a pair with no "
                        f"segments; within={ids} model={w['model']}", w)
+            # Mapping protocol on an absent key: not contained, get() gives the default
+            try:
+                got = ((a, b) in res, (b, a) in res, res.get((a, b), "dflt"))
+            except Exception as e:
+                report(ctx, "ibd/absent-pair-not-keyerror", f"'in' / get() for absent {(a, b)} raised "
+                       f"{type(e).__name__}: {e}; within={ids} model={w['model']}", w)
+            else:
+                if got != (False, False, "dflt"):
+                    report(ctx, "ibd/absent-pair-not-keyerror", f"((a,b) in res, (b,a) in res, res.get((a,b), 'dflt')) = "
+                           f"{got} for absent {(a, b)}; within={ids} model={w['model']}", w)
             break
+    a = ids[0]
+    for k in ((a, a), (a, n), (n, a), (-1, a), (a, 2 ** 31), (a,), (a, a + 1 if a + 1 < n else 0, a)):
+        must_raise(ctx, lambda: res[k], "ibd/bad-key-accepted", f"result[{k}] with num_nodes={n}, within={ids} "
+                   f"model={w['model']}", w)
+    ctx.feature("error:bad-keys")
 
 
 def run_boundary(ctx, rng, m):
-    """max_time equal to a node time: recorded, never gated (EITHER zone)."""
-    ts, tc, objs = objects(rng, m)
-    pairs = requested_pairs(m, None, None)
-    if not pairs:
+    """max_time EXACTLY on the time of an MRCA (alone, and together with min_span exactly on a span): the result
+    must be the strict or the inclusive reading (EITHER zone), one and the same under all four store options."""
+    ent = objects(rng, m)
+    refcache = {"unsquashed": has_unsquashed(m)}
+    within, between = draw_sets(rng, m) if rng.random() < 0.6 else (None, None)
+    pairs = requested_pairs(m, within, between)
+    if not pairs or len(pairs) >= 3000:
         return
-    runs = ref_runs(m, pairs, per_row=True)
-    times = sorted({m.time(s[2]) for v in runs.values() for s in v if m.time(s[2]) >= 0})
-    if not times:
+    check_call(ctx, m, ent, within, between, None, None, rng, refcache)
+    link = refcache[tuple(pairs)][0]
+    spans, mtimes = filter_inputs(m, link)
+    mtimes = [t for t in mtimes if t >= 0]
+    if not mtimes:
         return
-    t = rng.choice(times)
-    res = ts.ibd_segments(max_time=t, store_segments=True)
-    strict = apply_filters(m, runs, None, t)
-    incl = {p: sorted(s for s in v if m.time(s[2]) <= t) for p, v in runs.items()}
-    incl = {p: v for p, v in incl.items() if v}
-    got = {(int(a), int(b)): sorted(zip(res[(a, b)].left.tolist(), res[(a, b)].right.tolist(),
-                                       res[(a, b)].node.tolist())) for a, b in res}
-    ctx.count("boundary-calls(not gated)")
-    if got == incl and got != strict:
-        ctx.feature("boundary:time==max_time kept (inclusive)")
-    elif got == strict and got != incl:
-        ctx.feature("boundary:time==max_time dropped (strict)")
-    elif got == strict:
-        ctx.feature("boundary:indistinguishable")
-    else:
-        ctx.feature("boundary:neither")
+    t = rng.choice(mtimes)
+    ctx.count("boundary-calls(two-candidate gate)")
+    check_call(ctx, m, ent, within, between, None, t, rng, refcache)
+    check_call(ctx, m, ent, within, between, rng.choice(spans), t, rng, refcache)
+
+
+EXT_MODES = ["high-top", "ladder", "bigstar-between", "high-slots", "deep", "manymrca", "high-mixed", None]
+# the eighth slot carries the expensive instances (1.5 - 3.5 s each): each of them once per 80 cases, the first ones at
+# k = 7, 15, 23 (within the first 50 rounds of the quick tier, i.e. also on a heavily loaded machine)
+EXT_HEAVY = {7: "manymrca-65k", 15: "bigstar-within", 23: "manypairs-65k", 31: "ladder", 39: "deep",
+             47: "bigstar-between", 55: "manymrca", 63: "high-top", 71: "high-slots", 79: "ladder"}
+
+
+def ext_mode(k, tier):
+    if tier == "thorough" and k % 400 == 39:
+        return "queue-65k"
+    return EXT_MODES[k % 8] or EXT_HEAVY[k % 80]
+
+
+def cross_checked(m, pairs, per_row):
+    """Both reference implementations (rebuilt map per interval / incrementally updated map) must agree;
+    a disagreement is an error of this check, never a verdict."""
+    a = ref_runs(m, pairs, per_row)
+    b = X.ref_runs_sweep(m, pairs, per_row)
+    if a != b:
+        raise AssertionError("c19.ref_runs and c19_ext.ref_runs_sweep disagree")
+    return a
+
+
+def run_ext(ctx, rng, case):
+    k = case["k"]
+    mode = ext_mode(k, case["tier"])
+    ctx.feature("ext:" + mode)
+    ctx.count("ext:cases")
+    if mode.startswith("high-"):
+        m = gen.gen_topology(rng, n=rng.randint(3, 9), max_bp=rng.choice([0, 1, 3]),
+                             sample_mode=rng.choice(["all", "any", "young"]), unsquashed=rng.random() < 0.2)
+        N = rng.choice([46342, 46400, 65537, 65600, 70001, 100003]) + rng.randrange(50)
+        tc, idmap = X.embed_tables(m, rng, N, mode[5:])
+        ts = tc.tree_sequence()
+        ctx.sig(("ext", mode, N, tuple(sorted(idmap.items())), m.signature()), nontrivial=len(m.edges) > 0)
+        ent = Entry(ts, tc)
+        refcache = {"unsquashed": has_unsquashed(m)}
+        m.desc = {"small_model": m.to_json(), "embedded_in_num_nodes": N, "idmap(small->table)": idmap}
+        cuts = time_cuts(m)
+        hi = sorted(idmap.values())
+        if hi[-1] * N + hi[-1] >= 2 ** 32:
+            ctx.feature("ext:pair key a*N+b >= 2^32")
+        elif hi[-1] * N >= 2 ** 31:
+            ctx.feature("ext:pair key a*N+b >= 2^31")
+        for j in range(3):
+            if j == 0:
+                rw, rb = None, None
+            elif j == 1:
+                rw, rb = list(range(m.num_nodes)), None
+                rng.shuffle(rw)
+            else:
+                rw, rb = draw_sets(rng, m)
+            within = None if rw is None else [idmap[u] for u in rw]
+            between = None if rb is None else [[idmap[u] for u in s] for s in rb]
+            check_call(ctx, m, ent, within, between, None, None, rng, refcache, ref_sets=(rw, rb), relabel=idmap)
+            pairs = requested_pairs(m, rw, rb)
+            spans, mtimes = filter_inputs(m, refcache[tuple(pairs)][0])
+            if spans:
+                ms, mt = draw_filters(ctx, rng, m, spans, mtimes, cuts)
+                check_call(ctx, m, ent, within, between, ms, mt, rng, refcache, ref_sets=(rw, rb), relabel=idmap)
+        return
+    if mode == "ladder":
+        kk = rng.choice([257, 300, 513])
+        m = X.ladder_model(rng, kk, rng.choice(["low", "high"]))
+        ctx.sig(("ext", mode, kk, m.desc["variant"]))
+        ent = objects(rng, m, fast=True)
+        refcache = {"unsquashed": has_unsquashed(m), "ref": cross_checked}
+        ctx.count("ext:reference-cross-check")
+        ctx.feature("ext:pair with > 255 segments")
+        top = m.num_nodes - 1
+        for within, between in ((None, None), ([0, 1], None), ([0, 3, top, 1], None), (None, [[0], [1, 2]])):
+            check_call(ctx, m, ent, within, between, None, None, rng, refcache)
+            ms = rng.choice([1, 1.0, X.next_down(1.0), X.next_up(1.0), 0.5, None])
+            mt = rng.choice([None, 0.5, 1.5, 2.5, 1.0, 2.0])
+            if ms is not None or mt is not None:
+                check_call(ctx, m, ent, within, between, ms, mt, rng, refcache)
+        return
+    if mode in ("manymrca", "manymrca-65k"):
+        kk = rng.choice([256, 257, 300]) if mode == "manymrca" else 65536 + rng.randrange(1, 400)
+        m = X.manymrca_model(rng, kk, third=True)
+        ctx.sig(("ext", mode, kk))
+        ent = objects(rng, m, fast=True, routes=None if kk < 1000 else ("ts", "tc", "ll-pos", "ll-kw", "ll-defaults"))
+        refcache = {"unsquashed": has_unsquashed(m), "ref": cross_checked if kk < 1000 else X.ref_runs_sweep}
+        ctx.feature("ext:pair with > 65535 segments" if kk > 65535 else "ext:pair with > 255 segments")
+        check_call(ctx, m, ent, None, None, None, None, rng, refcache)
+        check_call(ctx, m, ent, [1, 0] if rng.random() < 0.5 else None, None,
+                   rng.choice([None, 1, X.next_down(1.0), 0.5]), rng.choice([1.5, 3.5, 4.0, 7.0, 7.5]), rng, refcache)
+        return
+    if mode in ("bigstar-between", "bigstar-within", "manypairs-65k"):
+        if mode == "bigstar-between":
+            kk = rng.choice([130, 260, 260, 300, 300, 520, 520, 1030])
+        elif mode == "bigstar-within":
+            kk = rng.choice([258, 270, 300])
+        else:
+            kk = rng.choice([366, 380, 420])
+        m = X.star_stem_model(rng, kk, stem=rng.choice([1, 2, 3]), side=3, two=rng.random() < 0.5,
+                              sample_leaves=rng.random() < 0.7)
+        lay = m.layout
+        ctx.sig(("ext", mode, tuple(sorted(m.desc.items(), key=str))))
+        ent = objects(rng, m, fast=True)
+        refcache = {"unsquashed": has_unsquashed(m)}
+        ctx.feature("ext:segment queue grows to > %d" % (128 if kk < 256 else 256 if kk < 512 else 512 if kk < 1024 else 1024))
+        if mode == "bigstar-between":
+            leaves = list(lay["leaves"])
+            rng.shuffle(leaves)
+            for between in ([leaves, lay["sides"]], [leaves + [lay["hub"]], [lay["top"]], lay["sides"][:1]],
+                            [leaves[:kk - 2], lay["sides"], leaves[kk - 2:] + [lay["stems"][0]]])[:rng.choice([2, 3])]:
+                check_call(ctx, m, ent, None, between, None, None, rng, refcache)
+                check_call(ctx, m, ent, None, between, rng.choice([None, 1, 1.0, 0.5, 2, X.next_down(1.0)]),
+                           rng.choice([None, 1.5, 2.5, 2.0, 100.0]), rng, refcache)
+            return
+        within = lay["leaves"] + lay["sides"] + ([lay["hub"]] if rng.random() < 0.5 else [])
+        rng.shuffle(within)
+        npairs = len(within) * (len(within) - 1) // 2
+        ctx.feature("ext:> 65535 pairs in one result" if npairs > 65535 else "ext:> 30000 pairs in one result")
+        if m.desc["sample_leaves"] and rng.random() < 0.5:
+            within = None  # the default: all samples = leaves + sides
+        check_call(ctx, m, ent, within, None, None, None, rng, refcache, sampled=True)
+        if mode == "bigstar-within":
+            check_call(ctx, m, ent, within, None, rng.choice([None, 1, 1.0, 0.5]), rng.choice([1.5, 1.0, 2.0, 2.5]),
+                       rng, refcache, sampled=True)
+        return
+    if mode == "deep":
+        depth = rng.choice([300, 1000, 1000, 1500])
+        m = X.deep_chain_model(rng, depth, rng.choice([1, 2, 3]))
+        ctx.sig(("ext", mode, tuple(m.edges[-8:]), depth))
+        ent = objects(rng, m, fast=True)
+        refcache = {"unsquashed": has_unsquashed(m), "ref": cross_checked}
+        ctx.count("ext:reference-cross-check")
+        ctx.feature("ext:chain of >= %d unary links" % (1000 if depth >= 1000 else 300))
+        if refcache["unsquashed"]:
+            # the bottom sample re-attached to the SAME chain node in adjacent intervals: adjacent edge rows with equal
+            # parent and child, i.e. the documented per-link / per-row EITHER zone applies here as in every other family
+            ctx.feature("ext:deep chain with unsquashed bottom edges")
+        lay = m.layout
+        picks = [0, lay["top"], depth // 2] + lay["sides"]
+        for within, between in ((None, None), (picks, None), (None, [[0, lay["sides"][0]], [lay["top"], 1],
+                                                                      lay["sides"][1:]])):
+            check_call(ctx, m, ent, within, between, None, None, rng, refcache)
+        check_call(ctx, m, ent, picks, None, rng.choice([None, 1, 0.5]), rng.choice([depth / 2 + 0.5, float(depth), 1.5]),
+                   rng, refcache)
+        return
+    if mode == "queue-65k":
+        # thorough tier only: > 65535 segments queued under ONE edge (about 2 * 10^9 cheap comparisons in the C code);
+        # expectation by construction: every leaf shares the whole genome with the side sample, MRCA = top
+        kk = 65536 + rng.randrange(1, 200)
+        m = X.star_stem_model(rng, kk, stem=1, side=1, two=False, sample_leaves=False)
+        lay = m.layout
+        ctx.sig(("ext", mode, kk))
+        tc = X.fast_tables(m)
+        res = tc.ibd_segments(between=[np.array(lay["leaves"], dtype=np.int32), lay["sides"]], store_pairs=True)
+        ctx.count("oracle:pair-summaries-equal-reference")
+        got = (int(res.num_segments), float(res.total_span), int(res.num_pairs))
+        side = lay["sides"][0]
+        sl = res[(kk - 1, side)]
+        if got != (kk, float(kk), kk) or (len(sl), float(sl.total_span)) != (1, 1.0):
+            report(ctx, "ibd/segments-differ-from-definition", f"star of {kk} leaves under a unary stem, between="
+                   f"[leaves, [{side}]]: (num_segments, total_span, num_pairs)={got} expected {(kk, float(kk), kk)}; "
+                   f"pair {(kk - 1, side)}: {(len(sl), float(sl.total_span))} expected (1, 1.0)", {"model": m.desc})
+        return
+    raise AssertionError(mode)
 
 
 def run_case(case, ctx):
@@ -724,6 +1251,9 @@ def run_case(case, ctx):
     if g == "manysets":
         run_manysets(ctx, rng)
         return
+    if g == "ext":
+        run_ext(ctx, rng, case)
+        return
     if g == "wide":
         m = wide_model(rng)
         ctx.sig(("wide", m.signature()), nontrivial=len(m.edges) > 0)
@@ -738,6 +1268,11 @@ def run_case(case, ctx):
                              max_bp=10 if big else rng.choice([1, 3, 6]),
                              unsquashed=rng.random() < 0.3,
                              sample_mode=rng.choice(["young"] * 4 + ["any"] * 4 + ["all"] * 3 + ["few"] * 2 + ["none"]))
+    if g == "walk" and case["k"] % 10 == 3:
+        # coordinates that need more than 24 significant bits (an exact rescaling of the whole genome)
+        st = case["k"] % 20 == 3
+        m = X.scaled_copy(m, 2 ** 26 + 1, times=st)
+        ctx.feature("scaled-coordinates(> 24 significant bits)" + (" and times" if st else ""))
     for t in gen.topo_tags(m):
         ctx.feature(t)
     if g == "errors":
